@@ -6,7 +6,12 @@
 // tracking the pod and the binding then names B.
 package state
 
-// K is the pod's key (namespace/name); [key] pins it for callers.
+// K is the pod's key: the value of the function's first client.ObjectKeyFromObject(pod) (the spec language has no struct
+// literal to build a NamespacedName from pod.Namespace/pod.Name); [key] pins it to the pod's namespace and name, which is all
+// a caller learns about it. moved = the cluster believes the key bound to another node name than the pod's; tracked = that
+// node is in c.nodes; oldN = that node. Exact transition: cleanupForPod runs exactly when moved && tracked, on oldN with K
+// ([oldNodeThisKey], [cleanupCalled]); then K leaves every per-pod map of oldN and the binding is dropped; in every other case,
+// and for every other key, bindings and oldN's maps are as before; no other node is written (modifies).
 //@ func (*Cluster).cleanupOldBindings
 //@   prop C11
 //@   let K = @client.ObjectKeyFromObject
